@@ -248,6 +248,19 @@ impl<S: Subject> SubjDriver<S> {
             bad(format!("clone shares {} key/value object(s) with the original", shared.len()));
         }
         drop(c2);
+        // 1b. clone_from onto a differently configured, non-empty destination gives the same object
+        match catch_unwind(AssertUnwindSafe(|| c.clone_from_onto(&self.cfg))) {
+            Ok(Some(c3)) => {
+                let a3 = audit_of(&c3);
+                let s3 = snap_of(&c3);
+                if s3.canon() != base.canon() || !a3.dangling.is_empty() || !a3.structural.is_empty() {
+                    bad(format!("clone_from onto another cache gives {} instead of {} ({:?})", crate::oracle::show(&self.cfg, &s3), crate::oracle::show(&self.cfg, base), a3.structural));
+                }
+                drop(c3);
+            }
+            Ok(None) => {}
+            Err(_) => bad(format!("clone_from panicked: {}", panics::take_last())),
+        }
         // 2. one-step bisimulation for every operation: fresh original vs fresh clone
         for op in &want.clone_ops {
             res.steps += 1;
@@ -415,6 +428,16 @@ impl<S: Subject> Driver for SubjDriver<S> {
 
 pub fn make_driver(cfg: &Cfg) -> Box<dyn Driver> {
     use crate::track::{PV, TK, TV};
+    if cfg.builder_path >= 2 {
+        // constructors without a hasher argument (DefaultHashBuilder inside)
+        type D = caches::DefaultHashBuilder;
+        match cfg.kind {
+            Kind::Slru => return Box::new(SubjDriver::<SlruSubj<u64, PV, D>>::new(cfg.clone())),
+            Kind::TwoQ => return Box::new(SubjDriver::<TwoQSubj<u64, PV, D>>::new(cfg.clone())),
+            Kind::Arc => return Box::new(SubjDriver::<ArcSubj<u64, PV, D>>::new(cfg.clone())),
+            _ => {}
+        }
+    }
     match (cfg.kind, cfg.key_ty) {
         (Kind::Raw, KeyTy::U64) => Box::new(SubjDriver::<RawSubj<u64, PV>>::new(cfg.clone())),
         (Kind::Raw, KeyTy::Tracked) => Box::new(SubjDriver::<RawSubj<TK, TV>>::new(cfg.clone())),
@@ -426,6 +449,15 @@ pub fn make_driver(cfg: &Cfg) -> Box<dyn Driver> {
         (Kind::Arc, KeyTy::Tracked) => Box::new(SubjDriver::<ArcSubj<TK, TV>>::new(cfg.clone())),
         (Kind::Wtlfu, KeyTy::U64) => Box::new(SubjDriver::<WtlfuSubj<u64, PV>>::new(cfg.clone())),
         (Kind::Wtlfu, KeyTy::Tracked) => Box::new(SubjDriver::<WtlfuSubj<TK, TV>>::new(cfg.clone())),
+        (Kind::Raw, KeyTy::TrackedKeys) => Box::new(SubjDriver::<RawSubj<TK, PV>>::new(cfg.clone())),
+        (Kind::Raw, KeyTy::TrackedVals) => Box::new(SubjDriver::<RawSubj<u64, TV>>::new(cfg.clone())),
+        (Kind::TwoQ, KeyTy::TrackedKeys) => Box::new(SubjDriver::<TwoQSubj<TK, PV>>::new(cfg.clone())),
+        (Kind::TwoQ, KeyTy::TrackedVals) => Box::new(SubjDriver::<TwoQSubj<u64, TV>>::new(cfg.clone())),
+        (Kind::Arc, KeyTy::TrackedKeys) => Box::new(SubjDriver::<ArcSubj<TK, PV>>::new(cfg.clone())),
+        (Kind::Arc, KeyTy::TrackedVals) => Box::new(SubjDriver::<ArcSubj<u64, TV>>::new(cfg.clone())),
+        // the segmented and W-TinyLFU caches release everything through RawLRU's code paths
+        (_, KeyTy::TrackedKeys) => Box::new(SubjDriver::<SlruSubj<TK, PV>>::new(cfg.clone())),
+        (_, KeyTy::TrackedVals) => Box::new(SubjDriver::<SlruSubj<u64, TV>>::new(cfg.clone())),
     }
 }
 
